@@ -9,7 +9,7 @@
    variable names (theorems mk_fun_wf / mk_mat_wf).  The iteration order of an expression's
    variable set (PYTHONHASHSEED) is the field [fparams] of the function: every theorem below
    quantifies over it. *)
-From PyDcop Require Import Base M_RelKinds P_RelKinds P_RelKinds2.
+From PyDcop Require Import Base M_RelKinds P_RelKinds P_RelKinds2 P_RelKinds3.
 From Coq Require Import Permutation.
 Open Scope Z_scope.
 
@@ -251,4 +251,67 @@ Proof.
   split; [reflexivity|]. split; [reflexivity|]. split; [vm_compute; reflexivity|].
   split; [reflexivity|]. split; [reflexivity|]. split; [vm_compute; reflexivity|].
   split; reflexivity.
+Qed.
+
+(* ======================= Deepening: exceptions (proofs in P_RelKinds3) =======================
+   Which malformed slices / calls of a well-formed NON-conditional relation raise which
+   exception, as equivalences (so every other slice / call succeeds).  The predicates are
+   definitions by cases on the kind (P_RelKinds3), built from:
+     unknown_key p ns      some key of p is not in ns
+     missing_key d ns      some name of ns is not a key of d
+     out_of_domain dims p  p gives some matrix dimension a value outside its domain
+     not_single dims d     a dimension not in d has a domain that is not a singleton (.item())
+     free_name f           the body of f uses a name that is not a parameter of f
+     wrong_unary_slice v p p is one pair on another variable, or has >= 2 pairs
+   slice_raises:   zero-ary: ValueError iff p <> {} | unary: ValueError iff wrong_unary_slice,
+                   NameError iff p = {v: x} and the lambda has a free name | boolean: ValueError
+                   iff wrong_unary_slice | function: ValueError iff unknown_key | matrix:
+                   AttributeError iff unknown_key, else ValueError iff out_of_domain | neutral: never.
+   gv_dict_raises: zero-ary: ValueError iff d <> {} | unary/boolean: KeyError iff its variable is
+                   not in d (NameError: free name) | function: KeyError iff unknown_key, else
+                   TypeError iff missing_key, else NameError iff free_name | matrix: AttributeError
+                   iff unknown_key, else ValueError iff out_of_domain or not_single | neutral: never.
+   gv_list_raises: zero-ary: ValueError iff l <> [] | unary/boolean: ValueError iff len(l) <> 1 |
+                   function/matrix: IndexError iff more values than variables, else what the dict
+                   form raises on the zipped prefix | neutral: never.
+   call_kw_raises: unary/boolean: ValueError iff len(kw) <> 1, else as gv_dict; others as gv_dict. *)
+Theorem slice_exceptions_spec : forall b p e,
+  wf_b b -> NoDup (map fst p) -> (bslice b p = Err e <-> slice_raises b p e).
+Proof. exact slice_exceptions_spec_l. Qed.
+
+Theorem slice_succeeds_iff : forall b p,
+  wf_b b -> NoDup (map fst p) -> ((exists b', bslice b p = Ok b') <-> forall e, ~ slice_raises b p e).
+Proof. exact slice_succeeds_iff_l. Qed.
+
+Theorem gv_dict_exceptions_spec : forall b d e,
+  wf_b b -> NoDup (map fst d) -> (bgv_dict b d = Err e <-> gv_dict_raises b d e).
+Proof. exact gv_dict_exceptions_spec_l. Qed.
+
+Theorem gv_list_exceptions_spec : forall b l e,
+  wf_b b -> (bgv_list b l = Err e <-> gv_list_raises b l e) /\ bcall_pos b l = bgv_list b l.
+Proof. exact gv_list_exceptions_spec_l. Qed.
+
+Theorem call_kw_exceptions_spec : forall b kw e,
+  wf_b b -> NoDup (map fst kw) -> (bcall_kw b kw = Err e <-> call_kw_raises b kw e).
+Proof. exact call_kw_exceptions_spec_l. Qed.
+
+(* non-vacuity: each exception kind is reached on a well-formed relation *)
+Example c11_exceptions_nonvacuous :
+  let d := [0; 1] in
+  let m := RMat [((0, d), 2%nat); ((1, d), 1%nat)] [0; 0; 0; 1] 0%nat in
+  let vt := [(2, d); (1, d)] in
+  let t := RFun (mkFn FExpr [1; 2] (EAdd (EV 1) (EV 2)) []) vt (ident_mapping vt) true in
+  wf_b m /\ wf_b t /\
+  bslice m [(7, 0)] = Err EAttr /\ bslice m [(0, 5)] = Err EValue /\ bslice t [(7, 0)] = Err EValue /\
+  bgv_dict t [(1, 0)] = Err EType /\ bgv_dict t [(1, 0); (7, 0)] = Err EKey /\
+  bgv_list t [0; 0; 0] = Err EIndex /\ bgv_dict m [(0, 1)] = Err EValue /\
+  bslice (RUnary (0, d) 10 (EV 11)) [(0, 1)] = Err EName /\
+  (exists b', bslice t [(1, 0)] = Ok b').
+Proof.
+  intros d m vt t. split; [vm_compute; repeat constructor; simpl; intuition congruence|].
+  split.
+  { simpl. split; [repeat constructor; simpl; intuition congruence|].
+    split; [repeat constructor; simpl; intuition congruence|].
+    split; [simpl; tauto|]. split; [reflexivity|]. intros a; simpl; intuition. }
+  repeat (split; [vm_compute; reflexivity|]). eexists. vm_compute. reflexivity.
 Qed.
